@@ -4,7 +4,9 @@ import (
 	"bytes"
 	"context"
 	"fmt"
+	"io"
 	"os"
+	"path/filepath"
 	"time"
 
 	"github.com/superfly/litefs"
@@ -100,7 +102,7 @@ func init() {
 	register(&CheckDef{
 		ID:    "C15",
 		Level: "exploration",
-		Rule:  "seeded histories on a primary with a replica attached through the simulated network: create / write / drop / recreate cycles (any number, rollback-journal and WAL mode, recreation with the same or a different page size), with the replica connected, disconnected during the drop (joins later), or restarted (clean or crash) around it. Oracle after every drop: the primary's position is previous+1 with exactly the empty checksum, database/journal/WAL/shm files are gone on the primary and - after convergence - on the replica, the name disappears from directory listings on both; after recreation the first commit has TXID drop+1, the log stays one chain, and the replica converges to the identical image. Crash points inside the drop are C05's tombstone shapes. evaluations = runs; distinct = distinct (mode, replica state at drop, recreate page-size relation, cycle count) tuples; non-trivial = run with >= 1 drop checked on both nodes",
+		Rule:  "seeded histories on a primary with a replica attached through the simulated network: create / write / drop / recreate cycles (any number, rollback-journal and WAL mode, recreation with the same or a different page size), with the replica connected, disconnected during the drop (joins later), or restarted (clean or crash) around it; in a third of the cycles a node with an empty disk joins after the drop, from a primary that has or has not been restarted since. Oracle after every drop: the primary's position is previous+1 with exactly the empty checksum, database/journal/WAL/shm files are gone on the primary and - after convergence - on the replica, the name disappears from directory listings on both; after recreation the first commit has TXID drop+1, the log stays one chain, and the replica converges to the identical image. Crash points inside the drop are C05's tombstone shapes. evaluations = runs; distinct = distinct (mode, replica state at drop, recreate page-size relation, cycle count) tuples; non-trivial = run with >= 1 drop checked on both nodes",
 		Run:   runC15,
 		NonTrivial: func(r *Run) bool {
 			return r.Stats["c15.drop.checked"] > 0
@@ -112,7 +114,7 @@ func init() {
 	register(&CheckDef{
 		ID:    "C16",
 		Level: "exploration",
-		Rule:  "seeded images (every page size, 1..600 pages incl. checksum-block boundaries, rollback or WAL header, truncated and garbage inputs) imported over POST /import into an absent, empty, dropped or populated database (rollback or WAL mode, with committed un-checkpointed WAL frames or a leftover hot journal, same or different page size) on a primary with a replica; exports over GET /export. Oracle: a successful import is exactly one new TXID, the export equals the input except bytes 24..27 and 40..43 of page 1, the replica converges to the identical image and checksum; a failed import leaves image, position and log unchanged, does not stop the node, and a fresh Store still opens the directory; the export of an idle database equals the committed image of the position it is taken at. evaluations = imports+exports; distinct = distinct (target state, image class, outcome) tuples; non-trivial = run with >= 1 successful import verified on the replica",
+		Rule:  "seeded images (every page size, 1..600 pages incl. checksum-block boundaries, rollback or WAL header, truncated and garbage inputs) imported over POST /import into an absent, empty, dropped or populated database (rollback or WAL mode, with committed un-checkpointed WAL frames or a leftover hot journal, same or different page size) on a primary with a replica; exports over GET /export. Oracle: a successful import is exactly one new TXID, the export equals the input except bytes 24..27 and 40..43 of page 1, the replica converges to the identical image and checksum; a failed import leaves image, position and log unchanged, does not stop the node, and a fresh Store still opens the directory; the export of an idle database equals the committed image of the position it is taken at. One run in five is two overlapping imports of one database (the first paused in the middle of its upload while it holds the write lock, the second queued behind it; same or different page sizes; new or existing database): each ends as it would have alone after the other, the node keeps running and restarts. evaluations = imports+exports; distinct = distinct (target state, image class, outcome) tuples; non-trivial = run with >= 1 successful import verified on the replica",
 		Run:   runC16,
 		NonTrivial: func(r *Run) bool {
 			return r.Stats["c16.import.ok"] > 0
@@ -242,6 +244,68 @@ func runC15(r *Run) {
 		}
 		r.Check(!pr.rep.Exited && !pr.p.Exited, "c15.exit", "a node exited")
 		r.Count("c15.drop.checked")
+		// A node that joins afterwards with nothing on its disk needs a snapshot
+		// of the dropped database - possibly from a primary that has itself been
+		// restarted since the drop (and knows the database only from its log).
+		if t.Chance(1, 3) && !r.Failed() {
+			restarted := t.Chance(1, 2)
+			if restarted {
+				crash := t.Chance(1, 2)
+				pr.net.ResetNode(pr.p.ID)
+				if crash {
+					img, err := pr.p.Kill(fmt.Sprintf("p%d", cyc))
+					if err != nil {
+						r.Inconclusive("image: %v", err)
+						return
+					}
+					pr.p.Close()
+					if err := pr.p.RestartFrom(img); err != nil {
+						r.Failf("c15.primary-restart", "the primary does not restart after the drop: %v", err)
+						return
+					}
+				} else {
+					if err := pr.p.Close(); err != nil {
+						r.Failf("c15.primary-restart", "closing the primary after the drop failed: %v", err)
+						return
+					}
+					if err := pr.p.Open(); err != nil {
+						r.Failf("c15.primary-restart", "the primary does not restart after the drop: %v", err)
+						return
+					}
+				}
+				pr.p.WaitPrimary(5 * time.Second)
+				db = pr.p.Store.DB(h.name)
+				if !r.Check(db != nil && db.Pos() == after, "c15.primary-restart", "the restarted primary is not at the tombstone position %s", after) {
+					return
+				}
+			}
+			blank := r.NewNode(NodeCfg{Candidate: false, Compress: pr.p.Cfg.Compress, Tune: pr.rep.Cfg.Tune})
+			blank.Cfg.Leaser = litefs.NewStaticLeaser(false, pr.p.Name, pr.p.URL())
+			blank.Cfg.Client = pr.net.Attach(blank)
+			if err := blank.Open(); err != nil {
+				r.Inconclusive("open blank replica: %v", err)
+				return
+			}
+			ok := waitPos(blank, h.name, after, 10*time.Second)
+			r.Check(ok, "c15.replica-drop", "a node that joined with an empty disk after the drop (primary restarted since: %v) did not reach the tombstone position %s", restarted, after)
+			if ok {
+				for _, f := range []string{"database", "journal", "wal", "shm"} {
+					r.Check(!fileExists(blank.Store.DBPath(h.name)+"/"+f), "c15.drop-files", "the node that joined after the drop has a %s file", f)
+				}
+				r.Count("c15.drop.blank-join")
+			}
+			r.Check(!blank.Exited, "c15.exit", "the joining node exited")
+			pr.net.ResetNode(blank.ID)
+			blank.Fence()
+			blank.Close()
+			if r.Failed() {
+				return
+			}
+			// the old replica follows the restarted primary again
+			if !r.Check(waitPos(pr.rep, h.name, after, 10*time.Second), "c15.replica-drop", "after the primary's restart the replica is not at %s", after) {
+				return
+			}
+		}
 		// recreate (possibly with another page size)
 		h.ref, h.wal = nil, false
 		samePS := t.Chance(2, 3)
@@ -279,7 +343,157 @@ func runC15(r *Run) {
 	r.Sample = map[string]any{"history": log}
 }
 
+// journalLooksHot reports whether the database directory holds a journal file
+// that starts with the journal magic.
+func journalLooksHot(dbDir string) bool {
+	f, err := os.Open(filepath.Join(dbDir, "journal"))
+	if err != nil {
+		return false
+	}
+	defer f.Close()
+	var b [8]byte
+	if _, err := io.ReadFull(f, b[:]); err != nil {
+		return false
+	}
+	return bytes.Equal(b[:], journalMagic)
+}
+
+// c16Overlap: two imports of one database overlap - the first is still
+// uploading (and holds the write lock) when the second arrives and queues
+// behind it. Each must end as it would have alone after the other: a success
+// replaces the database whole, a refusal changes nothing, the node keeps
+// running and can be restarted.
+func c16Overlap(r *Run) {
+	t := r.Tape
+	pr := newPair(r, t.Chance(1, 2), 0)
+	if !pr.open() {
+		return
+	}
+	const name = "db"
+	psA := []uint32{512, 1024, 4096, 8192}[t.Next(4)]
+	psB := psA
+	if t.Chance(1, 2) {
+		psB = []uint32{512, 1024, 4096, 8192}[t.Next(4)]
+	}
+	imA := MakeImage(psA, uint32(t.Range(2, 12)), t.Chance(1, 3), 700)
+	imB := MakeImage(psB, uint32(t.Range(1, 12)), t.Chance(1, 3), 800)
+	// sometimes the database exists already (then a foreign page size is refused at once)
+	var pre *Image
+	if t.Chance(1, 3) {
+		pre = MakeImage(psA, uint32(t.Range(1, 6)), false, 600)
+		res := pr.p.HTTP(context.Background(), "POST", "/import?name="+name, nil, bytes.NewReader(pre.Bytes()), false)
+		if res.Code != 200 {
+			r.Inconclusive("initial import: %d", res.Code)
+			return
+		}
+		pre = pre.ImportedForm()
+	}
+	r.Cfg["ps_a"], r.Cfg["ps_b"], r.Cfg["preexisting"] = psA, psB, pre != nil
+	bodyA := imA.Bytes()
+	cut := t.Range(1, len(bodyA)-1)
+	prd, pwr := io.Pipe()
+	type done struct {
+		res HTTPResult
+		at  time.Duration
+	}
+	chA, chB := make(chan done, 1), make(chan done, 1)
+	go func() {
+		res := pr.p.HTTP(context.Background(), "POST", "/import?name="+name, nil, prd, false)
+		chA <- done{res, r.SimNow()}
+	}()
+	go func() { _, _ = pwr.Write(bodyA[:cut]) }()
+	time.Sleep(time.Duration(t.Range(1, 30)) * time.Millisecond)
+	go func() {
+		ctx, cancel := context.WithTimeout(context.Background(), 20*time.Second)
+		defer cancel()
+		res := pr.p.HTTP(ctx, "POST", "/import?name="+name, nil, bytes.NewReader(imB.Bytes()), false)
+		chB <- done{res, r.SimNow()}
+	}()
+	time.Sleep(time.Duration(t.Range(1, 300)) * time.Millisecond)
+	go func() { _, _ = pwr.Write(bodyA[cut:]); pwr.Close() }()
+	var a, b done
+	for i := 0; i < 2; i++ {
+		select {
+		case a = <-chA:
+		case b = <-chB:
+		case <-time.After(60 * time.Second):
+			if pr.p.Exited {
+				r.Failf("c16.exit", "two overlapping imports (A: ps %d, %d pages; B: ps %d, %d pages; existing database: %v): the node stopped (Exit %d)", psA, imA.N(), psB, imB.N(), pre != nil, pr.p.ExitCode)
+				return
+			}
+			r.Failf("c16.overlap", "two overlapping imports: no answer after 60 s")
+			return
+		}
+	}
+	desc := fmt.Sprintf("overlapping imports A (ps %d, %d pages, upload paused after %d bytes) => %d at %v and B (ps %d, %d pages) => %d at %v, existing database: %v", psA, imA.N(), cut, a.res.Code, a.at, psB, imB.N(), b.res.Code, b.at, pre != nil)
+	r.Logf("%s", desc)
+	if !r.Check(!a.res.Panicked && !b.res.Panicked, "c16.panic", "%s: handler panicked: %s %s", desc, a.res.PanicMsg, b.res.PanicMsg) {
+		return
+	}
+	if !r.Check(!pr.p.Exited, "c16.exit", "%s: the node stopped (Exit %d)", desc, pr.p.ExitCode) {
+		return
+	}
+	// what the database must be: the image of the import that succeeded last
+	want := pre
+	n := 0
+	if pre != nil {
+		n = 1
+	}
+	first, second := a, b
+	fi, si := imA, imB
+	if b.at < a.at {
+		first, second, fi, si = b, a, imB, imA
+	}
+	if first.res.Code == 200 {
+		want, n = fi.ImportedForm(), n+1
+	}
+	if second.res.Code == 200 {
+		want, n = si.ImportedForm(), n+1
+	}
+	db := pr.p.Store.DB(name)
+	if want == nil {
+		r.Count("c16.overlap.both-refused")
+		return
+	}
+	if !r.Check(db != nil, "c16.overlap", "%s: no database", desc) {
+		return
+	}
+	pos := db.Pos()
+	r.Check(int(pos.TXID) == n, "c16.overlap", "%s: %d imports succeeded, the position is %s", desc, n, pos)
+	r.Check(uint64(pos.PostApplyChecksum) == want.Checksum(), "c16.checksum", "%s: position checksum %s, from-scratch checksum of the image that was imported last %016x", desc, pos.PostApplyChecksum, want.Checksum())
+	exp := pr.p.HTTP(context.Background(), "GET", "/export?name="+name, nil, nil, false)
+	if r.Check(exp.Code == 200 && !exp.Panicked, "c16.export", "%s: export failed: %d %s", desc, exp.Code, exp.PanicMsg) {
+		r.Check(bytes.Equal(exp.Body, want.Bytes()), "c16.export-image", "%s: export is not the image that was imported last (%d bytes vs %d)", desc, len(exp.Body), len(want.Bytes()))
+	}
+	if msg := CheckChain(pr.p.Store.DBPath(name), pos); msg != "" {
+		r.Failf("c16.chain", "%s: %s", desc, msg)
+	}
+	if r.Check(pr.waitReplica(name, 10*time.Second), "c16.replica", "%s: replica did not reach %s", desc, pos) {
+		disk, _ := ReadDiskImage(pr.rep.Store.DBPath(name))
+		if d := DiffImages(disk, want); d != "" {
+			r.Failf("c16.replica-image", "%s: replica image differs: %s", desc, d)
+		}
+	}
+	r.Check(!pr.rep.Exited, "c16.exit", "%s: the replica stopped", desc)
+	if img, err := pr.p.Image("ov"); err == nil {
+		if v, err := c17Open(r, img); err != nil {
+			r.Failf("c16.failed-restart", "%s: a fresh Store cannot open the data directory: %v", desc, err)
+		} else {
+			v.Fence()
+			v.Close()
+		}
+	}
+	r.Count("c16.overlap.checked")
+	r.Count("c16.import.ok")
+	r.State("overlap/%v/%v/%d/%d", psA == psB, pre != nil, a.res.Code, b.res.Code)
+}
+
 func runC16(r *Run) {
+	if r.Tape.Chance(1, 5) {
+		r.Cfg["scenario"] = "overlap"
+		c16Overlap(r)
+		return
+	}
 	t := r.Tape
 	pr := newPair(r, t.Chance(1, 2), 0)
 	if !pr.open() {
@@ -435,7 +649,12 @@ func runC16(r *Run) {
 			if target != "absent" && target != "dropped" {
 				r.Check(after == before, "c16.failed-changed", "%s: a failed import moved the position %s -> %s", desc, before, after)
 				disk, err := ReadDiskImage(pr.p.Store.DBPath(h.name))
-				if r.Check(err == nil, "c16.failed-changed", "%s: %v", desc, err) {
+				if hot := journalLooksHot(pr.p.Store.DBPath(h.name)); hot {
+					// the interrupted transaction's journal is still there: the raw
+					// file is not the logical image until somebody rolls it back,
+					// which a refused import is not obliged to do
+					r.Count("c16.failed.hot-journal-left")
+				} else if r.Check(err == nil, "c16.failed-changed", "%s: %v", desc, err) {
 					if d := DiffImages(disk, beforeRef); d != "" {
 						r.Failf("c16.failed-changed", "%s: a failed import changed the database: %s", desc, d)
 					}
